@@ -177,6 +177,131 @@ UNITS += [
          doc="F: the entry's value if it exists, is not empty and converts, else dflt; never throws"),
 ]
 
+
+# ---- handle_arguments: resolved value -> member -> ini entry ------------------------------------------------------------------
+class IniEmplace(Rule):
+    """`ini_config.emplace_back("key[!]=" + E)` -> ini_put_str(ini_config, KEY, forced, E); with E = std::to_string(N) ->
+    ini_put_num(ini_config, KEY, forced, N); a literal value "key=123" -> ini_put_num(..., 123).  Key and value are captured,
+    nothing about which key belongs to which value is encoded here."""
+
+    def __init__(self, n="+"):
+        self.n = n
+        self.call = Call(r"\bini_config\.emplace_back", self.rep, None)
+        self.k = 0
+
+    def rep(self, args, env):
+        self.k += 1
+        m = re.fullmatch(r'"([\w.]+?)(!?)=([^"]*)"\s*(?:\+\s*(.+))?', args[0].strip(), re.S)
+        if not m or len(args) != 1:
+            raise LiftError("IniEmplace: unrecognised argument %r" % (args,))
+        key, forced, lit, expr = m.group(1), "true" if m.group(2) else "false", m.group(3), m.group(4)
+        if expr is not None:
+            if lit:
+                raise LiftError("IniEmplace: literal value and expression in %r" % args[0])
+            mt = re.fullmatch(r"std::to_string\((.*)\)", expr.strip(), re.S)
+            if mt:
+                return "ini_put_num(ini_config, %s, %s, %s)" % (StrLit.name(key), forced, mt.group(1))
+            return "ini_put_str(ini_config, %s, %s, %s)" % (StrLit.name(key), forced, expr.strip())
+        if re.fullmatch(r"\d+", lit):
+            return "ini_put_num(ini_config, %s, %s, %s)" % (StrLit.name(key), forced, lit)
+        return "ini_put_str(ini_config, %s, %s, %s)" % (StrLit.name(key), forced, StrLit.name(lit))
+
+    def apply(self, text):
+        self.k = 0
+        text = self.call.apply(text)
+        self.check(self.k, "IniEmplace")
+        return text
+
+
+class MayThrow(Rule):
+    """a statement that contains a call of a callee that may throw gets `if (vx_exc) return VX_RET;` appended (the
+    statement must stand directly in a block, so that appending a second statement does not change the control flow)"""
+
+    def __init__(self, head, n=None):
+        self.head, self.n = head, n
+
+    def apply(self, text):
+        from vx.lift import _stmt_end
+        k, pos = 0, 0
+        rx = re.compile(self.head)
+        while True:
+            m = rx.search(text, pos)
+            if not m:
+                break
+            j = m.start() - 1
+            depth = 0
+            while j >= 0:
+                c = text[j]
+                if c in ")]":
+                    depth += 1
+                elif c in "([":
+                    depth -= 1
+                elif c in ";{}" and depth == 0:
+                    break
+                j -= 1
+            if depth != 0:
+                raise LiftError("MayThrow(/%s/): call inside a condition or argument list of a compound statement" % self.head)
+            head_text = text[j + 1 : m.start()]
+            if re.search(r"\b(if|else|for|while|do|return)\b", head_text):
+                raise LiftError("MayThrow(/%s/): statement is not a plain expression/declaration statement" % self.head)
+            end = _stmt_end(text, m.start())
+            ins = " if (vx_exc) return VX_RET;"
+            text = text[: end + 1] + ins + text[end + 1 :]
+            pos = end + 1 + len(ins)
+            k += 1
+        self.check(k, "MayThrow(/%s/)" % self.head)
+        return text
+
+
+def member_call(name):
+    """`name();` (member function of the same object) -> `name(self);` + leave if it threw"""
+    return Sub(r"(?<![\w.>:])%s\(\);" % name, "{ %s(self); if (vx_exc) return VX_RET; }" % name, 1)
+
+
+ARG_MEMBERS = ["use_process_mask_", "process_mask_", "scheduler_", "affinity_domain_", "affinity_bind_", "pu_step_", "pu_offset_",
+               "numa_sensitive_", "num_threads_", "num_cores_"]
+ARG_RULES = [
+    DropStmt(r"\bPIKA_LOG", None),
+    DropBlock(r"\bif\s*\(\s*debug_clp\s*\)", 1),
+    THROW,
+    IniEmplace("+"),
+    StrLit(None),
+    # --pika:ini plumbing
+    Sub(r"\bstd::vector<std::string>\s+(\w+)\s*=\s*vm\[([^\]]+)\]\.as<\s*std::vector<std::string>\s*>\(\);",
+        r"struct strvec \1 = vm_as_vector_string(vm, \2);", 1),
+    Sub(r"\bstd::copy\((\w+)\.begin\(\),\s*\1\.end\(\),\s*std::back_inserter\((\w+)\)\);", r"vec_append_all(\2, &\1);", 1),
+    Sub(r"\bcfgmap\.add\((\w+)\);", r"cfg_add(cfgmap, &\1);", 1),
+    # process mask installation
+    Sub(r"(?<![\w:])from_string<\s*(?:\w+::)*(\w+)\s*>\(", r"from_string_\1(", 1),
+    MayThrow(r"\bfrom_string_mask_type\(", 1),
+    Sub(r"\bthreads::detail::get_topology\(\)\.(\w+)\(", r"topo_\1(get_topology(), ", 1),
+    # callees: resolution functions (may throw), checks (member functions, may throw)
+    MayThrow(r"\bdetail::handle_\w+\(|(?<![\w:])handle_process_mask\(", 9),
+    Sub(r"\bdetail::(?=handle_)", "", None),
+    member_call("check_affinity_domain"), member_call("check_pu_step"), member_call("check_pu_offset"),
+    member_call("check_affinity_description"),
+    Sub(r"\bupdate_logging_settings\(", "update_logging_settings(self, ", 1),
+    # the three sources
+    Call(r"\brtcfg_\.get_entry", "rtcfg_get_entry(&self->rtcfg_, {args})", None),
+    Call(r"\b(?:pika::)?(?:detail::)?get_entry_as<\s*(?:std::)?(\w+)\s*>", "get_entry_as_{h1}({args})", None),
+    Sub(r"(?<![\w.>&])rtcfg_\b", "&self->rtcfg_", None),
+    Call(r"\bvm_\.count", "vm_count(&self->vm_, {args})", None),
+    Sub(r"\bvm_\[([^\]]+)\]\.as<\s*(?:std::)?(\w+)\s*>\(\)", r"vm_as_\2(&self->vm_, \1)", None),
+    Sub(r"\bstd::size_t\((-?\w+)\)", r"((size_t) (\1))", None),
+] + SPELLING[3:] + [Members(ARG_MEMBERS)]
+from vx.lift import Auto
+UNITS += [
+    Unit("handle_arguments", "arguments.c", enforce="handle_arguments",
+         lifts={"body": Lift(CLH, r"void command_line_handling::handle_arguments\(", rules=ARG_RULES, post=[Auto(1)])},
+         funcs=[CLH + ": pika::detail::command_line_handling::handle_arguments"], min_obligations=60,
+         doc="T: every setting is resolved exactly once (resolution functions as counting stubs) with the runtime-configuration "
+             "entry or the built-in literal as default; the resolved value is stored in its member and written exactly once "
+             "under its ini key, after the user's --pika:ini entries; use_process_mask_ = !(--pika:ignore-process-mask or "
+             "config map or environment level > 0); validity checks run once each on the resolved values; a non-empty "
+             "process mask is installed once; --pika:high-priority-threads beyond the thread count or with a scheduler "
+             "without priority queues throws"),
+]
+
 META = {
     "explanation": "",
     "trusted_base": [],
